@@ -40,7 +40,7 @@ ASSUMPTIONS = [
 
 SEG_CHARS = "abzAZ019-._~"
 PREFIXES = ["doi", "GO", "go", "a.b", "a-b", "x_1", "P", "p", "~t", "chebi"]
-UBASE = ["http://x.org/", "https://id.org/a_", "http://x.org/a/", "http://purl.org/obo/GO_", "https://doi.org/", "http://y.org/q?id=", "http://z.org/#"]
+UBASE = ["http://x.org/", "https://id.org/a_", "http://x.org/a/", "http://purl.org/obo/GO_", "https://doi.org/", "http://y.org/q?id=", "http://z.org/#", "http://w.org/late/", "https://id.org/b_"]
 
 
 def segment(rng, d):
@@ -61,8 +61,8 @@ def run_case(ctx, g, rng):
     from starlette.testclient import TestClient
 
     api, S = ctx.api, probe.S
-    d = rng.choice([":", ":", "/"])
-    names = rng.sample(PREFIXES, k=len(PREFIXES))
+    d = rng.choice([":", ":", "/", "/", "::", "_", "."])
+    names = [p for p in rng.sample(PREFIXES, k=len(PREFIXES)) if d not in p]
     ups = rng.sample(UBASE, k=len(UBASE))
     recs = []
     for _ in range(rng.randint(1, 3)):
@@ -70,7 +70,10 @@ def run_case(ctx, g, rng):
         ps = tuple(names.pop() for _ in range(rng.randint(0, 1)))
         us = tuple(ups.pop() for _ in range(rng.randint(0, 1)))
         recs.append(spec.Rec(p, u, ps, us, None))
-    conv = api.Converter([gen.mk_record(api, r) for r in recs], delimiter=d)
+    # the converter may have a past: registered record by record, or grown through merges of records that have
+    # canonical values of their own
+    conv, how = gen.build(api, recs, d, rng)
+    S.counters[f"wl:build:{how}"] += 1
     sp = spec.SpecConverter(recs, d)
     fl = get_flask_app(conv).test_client()
     fa = TestClient(get_fastapi_app(conv))
@@ -83,7 +86,10 @@ def run_case(ctx, g, rng):
             # the converter the apps were built from grows while they are serving: a new record, and a synonym
             # merged into an existing one; the same paths are then requested again
             call(conv.add_prefix, late_prefix, ups.pop())
-            call(conv.add_prefix, recs[0].prefix, recs[0].uri_prefix, [late_syn], merge=True)
+            if rng.random() < 0.5:
+                call(conv.add_prefix, recs[0].prefix, recs[0].uri_prefix, [late_syn], merge=True)
+            else:  # the merged-in record has a canonical prefix and URI prefix of its own and matches through a synonym
+                call(conv.add_record, api.Record(prefix=late_syn, uri_prefix=ups.pop(), prefix_synonyms=[rng.choice(spec.all_p(recs[0]))]), merge=True)
             recs = list(spec.snapshot(conv))
             sp = spec.SpecConverter(recs, d)
             known = [p for r in recs for p in spec.all_p(r)]
@@ -99,9 +105,9 @@ def run_case(ctx, g, rng):
         else:
             segs = [segment(rng, d) for _ in range(rng.choice([1, 1, 2, 3, 4]))]
             ident = "/".join(segs)
-            if d == ":" and rng.random() < 0.4:
+            if d != "/" and rng.random() < 0.4:
                 i = rng.randint(0, len(ident))
-                ident = ident[:i] + ":" + ident[i:]
+                ident = ident[:i] + d + ident[i:]
             asked.append((p, segs, ident))
         path = "/" + p + d + ident
         curie = p + d + ident
@@ -150,7 +156,7 @@ def run_case(ctx, g, rng):
         pcls = "unknown" if ow is None else "canon" if ow.prefix == p else "syn"
         dpos = "" if d not in ident else "first" if ident.startswith(d) else "last" if ident.endswith(d) else "mid"
         feat = ("s" if "/" in ident else "") + ("d" + dpos if d in ident else "") + str(len(segs)) + ("x" if ident.count(d) > 1 else "") + f"r{len(recs)}" + ("g" if "registered_while_serving" in w0 else "")
-        probe.note_key(f"{'colon' if d == ':' else 'slash'}:{pcls}:{feat}:{got['flask'][0]}/{got['fastapi'][0]}", "/" in ident or d in ident)
+        probe.note_key(f"{ {':': 'colon', '/': 'slash'}.get(d, 'd' + d) }:{pcls}:{feat}:{got['flask'][0]}/{got['fastapi'][0]}", "/" in ident or d in ident)
         S.counters["wl:requests"] += 2
     S.counters["wl:apps"] += 2
     if g % 41 == 0:
